@@ -783,7 +783,8 @@ func (x *Ctx) others2(id string, all []string) []string { return minus(all, []st
 
 func scenLease(x *Ctx) {
 	r := x.R
-	all, l, ok := x.startStatic(3)
+	nv := x.P.Int("voters", 3)
+	all, l, ok := x.startStatic(nv)
 	if !ok {
 		return
 	}
@@ -806,6 +807,20 @@ func scenLease(x *Ctx) {
 	}
 	noise()
 	l2cand := minus(all, []string{l})
+	burst := false
+	if nv >= 5 {
+		// the old leader keeps a minority of the voters on its side (they go on answering it), and clients send it
+		// bursts of writes, so that replication rounds start closer together than a round trip
+		k := (nv-1)/2 - 1 // with the leader itself still one short of a majority
+		if k < 1 {
+			k = 1
+		}
+		keep := subset(r, l2cand, 1+r.Intn(k))
+		side = append(side, keep...)
+		l2cand = minus(l2cand, keep)
+		burst = true
+		x.NT("voter-minority-with-old-leader")
+	}
 	lease := time.Duration(x.P.Int("lease", 100)) * time.Millisecond
 	if cur := x.C.Leader(); cur != l {
 		x.Inconclusive("leader changed during set-up")
@@ -826,6 +841,19 @@ func scenLease(x *Ctx) {
 				time.Sleep(time.Duration(rr.Intn(8000)) * time.Microsecond)
 			}
 		}(c)
+	}
+	if burst {
+		wg.Add(1)
+		go func() {
+			defer wg.Done()
+			rr := rand.New(rand.NewSource(x.Seed + 77))
+			for !stopR.Load() {
+				for i := 0; i < 2+rr.Intn(3); i++ {
+					go x.C.Submit(30, nextOp("wb30"), "W", l, 40*time.Millisecond, 0)
+				}
+				time.Sleep(time.Duration(2+rr.Intn(12)) * time.Millisecond)
+			}
+		}()
 	}
 	time.Sleep(time.Duration(r.Intn(200)) * time.Millisecond)
 	switch r.Intn(3) {
@@ -1678,3 +1706,73 @@ func scenStaleReject(x *Ctx) {
 }
 
 func init() { Registry["w2.stalereject"] = scenStaleReject }
+
+
+// ---------------------------------------------------------------- C16: two outsiders that reach each other, in different terms
+
+// scenDisruptPair: of five voters, o1 is cut off before a leader change and o2 after it, so the two are in different
+// terms; then they are isolated together (they reach each other, nobody else) for many election timeouts and
+// rejoin. Whatever they do to each other, the healthy leader of the other three must stay, in its term.
+func scenDisruptPair(x *Ctx) {
+	r := x.R
+	all, l, ok := x.startStatic(5)
+	if !ok {
+		return
+	}
+	x.Writes(1, l, 3, time.Second)
+	idle := r.Intn(2) == 0
+	outs := subset(r, x.others(l), 2)
+	o1, o2 := outs[0], outs[1]
+	x.Step("isolate %s; force a leader change among the others", o1)
+	x.C.Net.Partition([]string{o1}, minus(all, []string{o1}))
+	x.C.Net.Partition([]string{l}, minus(all, []string{l}))
+	rest3 := minus(all, []string{o1, l})
+	l2 := x.C.WaitLeaderAmong(rest3, 6*x.ET()+2*time.Second)
+	if l2 == "" {
+		x.Inconclusive("no leader change")
+		return
+	}
+	x.Step("%s leads; %s rejoins as a follower; %s is isolated together with %s", l2, l, o2, o1)
+	x.C.Net.ClearLinks()
+	x.C.Net.Partition([]string{o1}, minus(all, []string{o1}))
+	x.Writes(2, l2, 2, time.Second)
+	if l2 == o2 {
+		o2 = pick(r, minus(all, []string{o1, l2}))
+	}
+	x.C.Net.ClearLinks()
+	maj := minus(all, []string{o1, o2})
+	x.C.Net.Partition([]string{o1, o2}, maj)
+	time.Sleep(2 * x.ET())
+	s := x.C.Node(l2).Sample()
+	if s == nil || s.State != "leader" || x.C.Leader() != l2 {
+		x.Inconclusive("no stable leader before the window")
+		return
+	}
+	term := s.Term
+	sort.Strings(maj)
+	x.C.ResetStall()
+	x.M.Emit(mon.Event{Kind: mon.KPhase, Str: fmt.Sprintf("c16.start|%s|%s|%d|%d", strings.Join(maj, ","), l2, term, int64(x.ET()))})
+	x.Step("window: leader %s term %d with %v; %s and %s talk to each other only", l2, term, maj, o1, o2)
+	var stopW atomic.Bool
+	var wg sync.WaitGroup
+	wg.Add(1)
+	go func() {
+		defer wg.Done()
+		for !stopW.Load() && !idle {
+			x.C.Submit(3, nextOp("w3"), "W", l2, 300*time.Millisecond, 0)
+			time.Sleep(3 * time.Millisecond)
+		}
+	}()
+	time.Sleep(time.Duration(8+r.Intn(8)) * x.ET())
+	x.Step("the pair rejoins")
+	x.C.Net.ClearLinks()
+	time.Sleep(4 * x.ET())
+	stopW.Store(true)
+	wg.Wait()
+	x.M.Emit(mon.Event{Kind: mon.KPhase, Str: fmt.Sprintf("c16.end|%d", x.C.StallMaxNs.Load())})
+	x.NT("c16-window")
+	x.NT("c16-pair-in-different-terms")
+	x.C.Net.Heal()
+}
+
+func init() { Registry["w2.disruptpair"] = scenDisruptPair }
